@@ -47,8 +47,9 @@ Definition exp_Task_executeCommand : list stm :=
 Definition exp_Task_writeAuditLogs : list stm :=
   [SAssign "auditInfo.Command"; SCall "t.Process.Name"; SAssign "auditInfo.Params"; SAssign "auditInfo.StartTime"; SAssign "auditInfo.FinishTime"; SAssign "auditInfo.ExecTimeNS"; SRange "t.InIPs" [SIf "t.portInfos[inpName].join" [SRange "t.subStreamIPs[inpName]" [SCall "subIP.auditInfoSnapshot"]; SBranch "continue"] []; SCall "iip.auditInfoSnapshot"]; SRange "t.OutIPs" [SCall "oip.Path"]; SRange "t.OutIPs" [SAssign "oipAuditInfo.Tags"; SCall "oip.SetAuditInfo"; SRange "t.InIPs" [SCall "oip.AddTags"]; SCall "oip.WriteAuditLogToFile"]].
 
+(* after the repair of D22: one goroutine per FIFO, all waited for *)
 Definition exp_Task_drainStreamingInputs : list stm :=
-  [SRange "t.InIPs" [SIf "iip.doStream" [SCall "os.Open"; SIf "err != nil" [SBranch "continue"] []; SCall "io.Copy"; SCall "fifo.Close"] []]].
+  [SRange "t.InIPs" [SIf "iip.doStream" [SCall "drains.Add"; SGo (SBlock [SDefer (SCall "drains.Done"); SCall "os.Open"; SIf "err != nil" [SReturn ""] []; SCall "io.Copy"; SCall "fifo.Close"])] []]; SCall "drains.Wait"].
 
 Definition exp_Workflow_IncConcurrentTasks : list stm :=
   [SLock "wf.concurrentTasksMx"; SFor "i < slots" [SSend "wf.concurrentTasks"]; SUnlock "wf.concurrentTasksMx"].
